@@ -89,10 +89,10 @@ def generate(rng, tier):
                     rng.shuffle(new)
                 case["variant"] = "permutation"
             elif r < 0.75:
-                new = rng.sample(["u", "v", "w", "x", "y", "z"], ncol)
+                new = rng.sample(["u", "v", "w", "x", "y", "z", ""], ncol)      # the empty string is a name like any other
                 case["variant"] = "fresh"
             else:
-                pool = names + ["u", "v", "w"]
+                pool = names + ["u", "v", "w", ""]
                 new = rng.sample(pool, ncol)
                 case["variant"] = "mixed"
             case["new"] = new
@@ -268,6 +268,13 @@ def execute(case):
                 exp[n] = cells
                 if n not in order:
                     order.append(n)
+            if names and len(repr(spec)) % 4 == 0:
+                # the frame was counted / summarised by one of its columns earlier: that leaves no trace on the frame
+                try:
+                    df.count(names[0]); df.unique(names[0]); df.sort(**{names[0]: 1})
+                    res.cls("modify:after-count-on-receiver")
+                except Exception:
+                    pass
             out = df.modify(**kw)
             expected = [(n, exp[n]) for n in order]
     except Exception as e:
